@@ -2,7 +2,7 @@
 import random, collections, json, math
 from onl.sim import Environment
 from onl.netdev import TokenBucket, TwoRateTokenBucket
-from harness.fifo import FifoRun, Recorder, make_packet, INF
+from harness.fifo import FifoRun, Recorder, run_many, make_packet, INF
 from harness.fshrink import shrink
 from vlib.util import bits, run_driver, split_cases, quiet
 
@@ -86,9 +86,9 @@ def gen_sources(rng, sizes):
     return out
 
 
-def gen_case(rng, cid):
-    dyadic = rng.random() < 0.6
-    kind = rng.choice(['tb', 'tworate'])
+def gen_case(rng, cid, kind=None, dyadic=None):
+    dyadic = rng.random() < 0.6 if dyadic is None else dyadic
+    kind = kind or rng.choice(['tb', 'tworate'])
     c = {'cid': str(cid), 'kind': kind, 'dyadic': dyadic, 'own_ids': rng.random() < 0.3}
     sizes = DY_SIZE if dyadic else [rng.randint(1, 3000) for _ in range(4)] + [40, 1500]
     def rate():
@@ -117,6 +117,34 @@ def gen_case(rng, cid):
     return c
 
 
+ASSUMPTIONS.append('peer shapers: in about 45% of the cases one or two further buckets of the same class (other rate / bucket size / peak, other CIR / CBS / PIR / PBS, '
+                   'now and then an equal configuration) with their own sources live in the same Environment; every instance is replayed through the model as a '
+                   'case of its own and judged by the oracle on its own history only')
+CONFIG_KEYS = ('rate', 'bucket', 'peak', 'cir', 'cbs', 'pir', 'pbs')
+
+
+def gen_group(rng, cid):
+    """the shaper under test and, in about 45% of the cases, one or two PEER shapers alive in the same Environment: "the bucket
+    (filled at `rate`, capped at bucket_size, initially full)" is the bucket of ONE shaper; what another TokenBucket /
+    TwoRateTokenBucket with another rate, size or PIR setting releases next to it changes nothing of its releases and colours."""
+    c = gen_case(rng, cid)
+    if rng.random() < 0.55:
+        return c
+    c['peers'] = []
+    for j in range(rng.choice([1, 1, 2])):
+        other = 'tworate' if c['kind'] == 'tb' else 'tb'
+        p = gen_case(rng, f'{cid}.p{j + 1}', c['kind'] if rng.random() < 0.85 else other, c['dyadic'] if rng.random() < 0.7 else None)
+        if p['kind'] == c['kind'] and rng.random() < 0.2:
+            for k in CONFIG_KEYS:          # a twin built from an equal configuration (its own traffic)
+                if k in c:
+                    p[k] = c[k]
+            p['twin'] = True
+        p['shared_ids'] = rng.random() < 0.4
+        c['peers'].append(p)
+    c['peers_first'] = rng.random() < 0.3
+    return c
+
+
 def header(c):
     if c['kind'] == 'tb':
         return f"CASE {c['cid']} tb {bits(c['rate'])} {bits(c['bucket'])} {fbits(c['peak'])}"
@@ -139,8 +167,7 @@ def feeder(env, dev, script, counter, pre=None, nput=None):
             dev.put(p)
 
 
-def run_impl(c):
-    env = Environment()
+def build(env, c, counter):
     if c['kind'] == 'tb':
         dev = TokenBucket(env, c['rate'], c['bucket'], c['peak'])
         run = FifoRun(env, dev, snap_tb)
@@ -148,15 +175,49 @@ def run_impl(c):
         dev = TwoRateTokenBucket(env, c['cir'], c['cbs'], c['pir'], c['pbs'])
         run = FifoRun(env, dev, snap_tr)
     dev.out = Tap(run)
-    counter, nput = [0], [0]
+    nput = [0]
     for script in c['sources']:
         env.process(feeder(env, dev, script, [0] if c.get('own_ids') else counter, c.get('precolour'), nput))
     run.raised = None
+    run.peers = []
+    return run
+
+
+def run_impl(c):
+    """the shaper of case `c` - and the peer shapers of its group in the same Environment - run to exhaustion; returns the
+    FifoRun of the shaper under test (the peers' runs in `.peers`)"""
+    env = Environment()
+    peers = c.get('peers') or []
+    counter = [0]
+    mk = lambda: [build(env, p, counter if p.get('shared_ids') else [0]) for p in peers]
+    built = mk() if c.get('peers_first') else []
+    run = build(env, c, counter)
+    if not c.get('peers_first'):
+        built = mk()
+    run.peers = built
     try:
-        run.run()
+        run_many(env, [run] + built)
     except BaseException as x:      # the property says nothing is lost: the run must not raise
         run.raised = f'{type(x).__name__}: {x}'
+        for r in built:
+            r.raised = run.raised
     return run
+
+
+def units(c, r):
+    """[(label, sub-case, FifoRun)]: the shaper under test and the peers of its group, each a case of its own"""
+    out = [('', c, r)]
+    peers = c.get('peers') or []
+    for j, (pc, pr) in enumerate(zip(peers, r.peers)):
+        cfg = {k: pc[k] for k in CONFIG_KEYS if k in pc}
+        out.append((f'instance {j + 2} of {len(peers) + 1} shapers in one Environment ({pc["kind"]} {cfg}'
+                    f'{", the configuration of the first" if pc.get("twin") else ""}): ', dict(pc, cid=f"{c['cid']}.p{j + 1}"), pr))
+    return out
+
+
+def digest(r):
+    """what the property speaks about, for the comparison of two executions of one case"""
+    return [(tout, p.packet_id, ut, lv, col) for tout, p, ut, lv, col in r.release]
 
 
 # ---- direct oracle (independent of the Lean model) -------------------------------------------------
@@ -182,6 +243,16 @@ def envelope_fails(rel, rate, cap, what):
 
 
 def oracle(c, run):
+    """the oracle on every instance of the case's group, each on its own history"""
+    fails = []
+    for label, uc, ur in units(c, run):
+        for f in oracle_one(uc, ur):
+            f['what'] = label + f['what']
+            fails.append(f)
+    return fails
+
+
+def oracle_one(c, run):
     fails = []
     def fail(what, sig):
         fails.append({'what': what, 'signature': sig})
@@ -423,19 +494,27 @@ def run(ctx):
         j = json.load(open(ctx.replay))
         cases = [j['case']] if j.get('case') else [d['case'] for d in j.get('broken_correspondence', [])]
     else:
-        cases = [gen_case(rng, i) for i in range(600 if ctx.quick else 12000)]
+        cases = [gen_group(rng, i) for i in range(600 if ctx.quick else 12000)]
     text, runs = [], {}
     for c in cases:
         r = run_impl(c)
         runs[c['cid']] = r
-        text.append(header(c)); text += r.acts; text.append('END')
+        for _, uc, ur in units(c, r):
+            text.append(header(uc)); text += ur.acts; text.append('END')
     model = split_cases(run_driver('fifo', '\n'.join(text) + '\n'))
     dis, orc = [], []
     hist = collections.Counter()
     distinct = set(); nontriv = 0; samples = []; shrunk = 0
     for c in cases:
         r = runs[c['cid']]
-        a, b = r.obs, model.get(c['cid'])
+        a = r.obs
+        if c.get('peers'):
+            hist['cases_with_peer_shapers'] += 1
+            hist['peer_shapers'] += len(c['peers'])
+            hist['peer_shapers:twin_configuration'] += sum(1 for p in c['peers'] if p.get('twin'))
+            hist['peer_shapers:other_class'] += sum(1 for p in c['peers'] if p['kind'] != c['kind'])
+            hist['peer_shapers:packets_released'] += sum(len(pr.release) for pr in r.peers)
+            hist['peer_shapers:packets_that_waited'] += sum(1 for pr in r.peers for rel, (ta, _) in zip(pr.release, pr.arrivals) if rel[2] > ta)
         for l in r.acts:
             hist[l.split(' ')[0]] += 1
         if c['kind'] == 'tb':
@@ -463,10 +542,12 @@ def run(ctx):
         if nt and key not in distinct:
             nontriv += 1
         distinct.add(key)
-        if a != b:
-            i = next((i for i in range(max(len(a), len(b or []))) if i >= len(a) or not b or i >= len(b) or a[i] != b[i]), 0)
-            dis.append({'case': c, 'detail': f'line {i}: impl `{a[i] if i < len(a) else None}` model `{b[i] if b and i < len(b) else None}`',
-                        'impl': a[:300], 'model': (b or [])[:300]})
+        for label, uc, ur in units(c, r):
+            ua, ub = ur.obs, model.get(uc['cid'])
+            if ua != ub:
+                i = next((i for i in range(max(len(ua), len(ub or []))) if i >= len(ua) or not ub or i >= len(ub) or ua[i] != ub[i]), 0)
+                dis.append({'case': c, 'detail': f'{label}line {i}: impl `{ua[i] if i < len(ua) else None}` model `{ub[i] if ub and i < len(ub) else None}`',
+                            'impl': ua[:300], 'model': (ub or [])[:300]})
         for f in oracle(c, r):
             f['case'] = c; f['trace'] = a[:300]
             if shrunk < 3 and not ctx.replay:       # minimise the first failing inputs
@@ -480,12 +561,26 @@ def run(ctx):
             orc.append(f)
         if len(samples) < 2 and nt:
             samples.append({'case': c, 'actions': r.acts[:40]})
-    cov = {'evaluations': len(cases), 'distinct_nontrivial': nontriv,
-           'rule': 'seeded random shaper configurations (TokenBucket with/without peak, TwoRateTokenBucket with PIR+PBS / CIR only; dyadic and arbitrary-float '
+    # the same configurations built again later in this process (fresh Environment): releases, debit instants, levels and colours
+    # are functions of the configuration and the arrivals
+    again = 0
+    for c in ([] if ctx.replay else cases[:40]):
+        r1, r2 = runs[c['cid']], run_impl(c)
+        again += 1
+        for (label, uc, u1), (_, _, u2) in zip(units(c, r1), units(c, r2)):
+            d1, d2 = digest(u1), digest(u2)
+            if d1 != d2:
+                k = next((k for k in range(min(len(d1), len(d2))) if d1[k] != d2[k]), min(len(d1), len(d2)))
+                orc.append({'what': f'{label}the same case executed a second time in this process (after {len(cases)} other cases) releases differently from '
+                                    f'release {k} on: first (instant, id, debit instant, levels, colour) {d1[k:k + 1]}, again {d2[k:k + 1]}',
+                            'signature': 'tb-second-execution-differs', 'case': c, 'trace': u2.obs[:300]})
+                break
+    cov = {'evaluations': len(cases), 'distinct_nontrivial': nontriv, 'cases_executed_a_second_time': again,
+           'rule': 'in 45% of the cases next to 1-2 peer shapers with their own traffic in the same Environment; seeded random shaper configurations (TokenBucket with/without peak, TwoRateTokenBucket with PIR+PBS / CIR only; dyadic and arbitrary-float '
                    'rates, bucket sizes incl. 0 and smaller than the packets) x arrival workloads (1-3 sources, bursts, idle gaps up to 1e5 s); non-trivial = '
                    'distinct case in which at least one packet waited for tokens and at least one was released without waiting',
-           'samples': samples, 'traces_validated_against_impl': len(cases) - len(dis),
-           'action_lines_replayed': sum(len(r.acts) for r in runs.values()), 'operation_histogram': dict(sorted(hist.items()))}
+           'samples': samples, 'traces_validated_against_impl': len(cases) - len({d['case']['cid'] for d in dis}),
+           'action_lines_replayed': sum(len(ur.acts) for c in cases for _, _, ur in units(c, runs[c['cid']])), 'operation_histogram': dict(sorted(hist.items()))}
     cov.update({'translated': _PREP.get('translated', []), 'generated_files_rewritten': _PREP.get('rewritten', []),
                 'generated_diff_vs_pinned': _PREP.get('diff_vs_pinned', []), 'bridge_theorems': BRIDGES, 'hand_modelled': HAND_MODELLED})
     res = {'coverage': cov, 'disagreements': dis, 'oracle_failures': orc}
